@@ -34,6 +34,8 @@ theorem SL_storeErasePublish {l} (id) (h : SL K l) : SL K (storeErasePublish id 
   cases h : (Alloc.deallocate c.s.pidMan id).1 <;> simp [releaseId, h, C.setPanic]
 @[simp] theorem releaseIfUsed_store (c : C) (id) : (releaseIfUsed c id).s.store = c.s.store := by
   unfold releaseIfUsed; split <;> simp
+@[simp] theorem refuseSend_store (c : C) (e p) : (refuseSend c e p).s.store = c.s.store := by
+  unfold refuseSend; split <;> simp
 @[simp] theorem cancelTimers_store (c : C) : (cancelTimers c).s.store = c.s.store := by
   cases h1 : c.s.sendSet <;> cases h2 : c.s.recvSet <;> cases h3 : c.s.respSet <;>
     simp [cancelTimers, h1, h2, h3]
